@@ -93,10 +93,10 @@ fn mk_logger(spec: LogSpecification, n_writers: usize, with_filter: bool) -> Fle
     );
     let mut others: HashMap<String, Box<dyn LogWriter>> = HashMap::new();
     if n_writers >= 1 {
-        others.insert("A".to_string(), Box::new(Rec { id: C_A }));
+        others.push_unique("A".to_string(), Box::new(Rec { id: C_A }));
     }
     if n_writers >= 2 {
-        others.insert("B".to_string(), Box::new(Rec { id: C_B }));
+        others.push_unique("B".to_string(), Box::new(Rec { id: C_B }));
     }
     FlexiLogger::new(
         Arc::new(RwLock::new(spec)),
@@ -129,15 +129,18 @@ fn ref_enabled(level: Level, target: &str, la: LevelFilter, ld: Option<LevelFilt
 fn cut_write_buffered(_f: crate::FormatFunction, _now: &mut DeferredNow, _r: &log::Record, _w: &mut dyn std::io::Write) -> Result<(), std::io::Error> {
     unreachable!("VERIF-CUT util::write_buffered")
 }
+fn cut_flw_drop(_w: &mut crate::writers::FileLogWriter) {
+    unreachable!("VERIF-CUT <FileLogWriter as Drop>::drop")
+}
 fn cut_flw_write(_w: &crate::writers::FileLogWriter, _now: &mut DeferredNow, _r: &log::Record) -> std::io::Result<()> {
     unreachable!("VERIF-CUT FileLogWriter::write")
 }
 // Common environment of the FlexiLogger harnesses: Multi primary writer without file writer and
 // without duplication -> the other PrimaryWriter arms, the file writer and write_buffered are cut.
 macro_rules! flx_harness {
-    ($(#[$m:meta])* fn $name:ident() $body:block) => {
+    ($u:literal, fn $name:ident() $body:block) => {
         #[kani::proof]
-        #[kani::unwind(12)]
+        #[kani::unwind($u)]
         #[kani::stub(verif_support::reexp::catch_unwind, verif_support::stub_cu)]
         #[kani::stub(chrono::Local::now, stub_now)]
         #[kani::stub(crate::util::eprint_msg, stub_eprint_msg)]
@@ -148,49 +151,334 @@ macro_rules! flx_harness {
         #[kani::stub(<crate::primary_writer::std_writer::StdWriter as crate::writers::LogWriter>::write, crate::primary_writer::verif_harness::cut_std_write)]
         #[kani::stub(<crate::writers::FileLogWriter as crate::writers::LogWriter>::write, cut_flw_write)]
         #[kani::stub(crate::util::write_buffered, cut_write_buffered)]
+        #[kani::stub(<crate::writers::FileLogWriter as std::ops::Drop>::drop, cut_flw_drop)]
         #[kani::stub(<crate::primary_writer::multi_writer::MultiWriter as crate::writers::LogWriter>::write, crate::primary_writer::verif_harness::rec_multi_write)]
         #[kani::stub(<crate::primary_writer::PrimaryWriter as crate::filter::LogLineWriter>::write, crate::primary_writer::verif_harness::cut_pw_llw_write)]
-        $(#[$m])*
         fn $name() $body
     };
 }
 
-// @verif prop=C02 tier=quick timeout=600 bounds=spec{a=L,[default=L]},plain-target<=2-bytes-over{a,b,:},0..1-additional-writers,with/without-line-filter
-// FlexiLogger::log passes a plain-target record to the primary writer (or to the user filter, which then alone decides) iff the reference enables (level, target); enabled() never answers false for a record that log() passes on.
-flx_harness! {
-fn c02_log_plain_target() {
-    vs::link_all();
+// Configuration (additional writer registered or not, user line filter or not, which entry point)
+// is concrete per instance; specification, level and target bytes are symbolic. enabled() and
+// log() are exercised by separate instances against the same reference: after one call the spec
+// RwLock's state word is a merged (symbolic) value for CBMC and a second call explores the
+// contended-lock paths of std (probed: > 10 GB).
+fn plain_target_case<const L: usize>(first: u8, with_writer: bool, with_filter: bool, call_log: bool) {
     vs::link_all();
     vs::cell_set(9, 5);
     vs::cell_set(10, 5);
     let (spec, la, ld) = any_spec_a();
-    let with_filter: bool = kani::any();
-    let with_writer: bool = kani::any();
     let logger = mk_logger(spec, if with_writer { 1 } else { 0 }, with_filter);
-    let tb: [u8; 2] = kani::any();
-    let tl: usize = kani::any();
-    kani::assume(tl <= 2);
-    kani::assume((tb[0] == b'a' || tb[0] == b'b' || tb[0] == b':') && (tb[1] == b'a' || tb[1] == b'b' || tb[1] == b':'));
-    let target = std::str::from_utf8(&tb[..tl]).unwrap();
+    // first byte concrete (so that `starts_with('{')` folds and the brace path is not explored
+    // with a symbolic guard - probed: does not finish), remaining bytes symbolic over {a, b, :}
+    let mut tb: [u8; L] = kani::any();
+    let mut i = 0;
+    while i < L {
+        kani::assume(tb[i] == b'a' || tb[i] == b'b' || tb[i] == b':');
+        i += 1;
+    }
+    if L > 0 {
+        tb[0] = first;
+    }
+    let target = vs::str_from(&tb);
     let level = any_level();
     let expect = ref_enabled(level, target, la, ld);
-    let md = log::Metadata::builder().level(level).target(target).build();
-    let en = logger.enabled(&md);
-    logger.log(&log::Record::builder().level(level).target(target).module_path(Some("zz")).args(format_args!("m")).build());
-    let delivered = vs::cell_get(C_P) + vs::cell_get(C_FILTER);
-    assert!(delivered == if expect { 1 } else { 0 });
-    assert!(vs::cell_get(C_FILTER) == if expect && with_filter { 1 } else { 0 });
-    assert!(vs::cell_get(C_A) == 0);
-    assert!(en == expect);
-    kani::cover!(expect && with_filter, "passed to the line filter");
+    if call_log {
+        logger.log(&log::Record::builder().level(level).target(target).module_path(Some("zz")).args(format_args!("m")).build());
+        let delivered = vs::cell_get(C_P) + vs::cell_get(C_FILTER);
+        assert!(delivered == if expect { 1 } else { 0 });
+        assert!(vs::cell_get(C_FILTER) == if expect && with_filter { 1 } else { 0 });
+        assert!(vs::cell_get(C_A) == 0);
+    } else {
+        let md = log::Metadata::builder().level(level).target(target).build();
+        assert!(logger.enabled(&md) == expect);
+    }
+    kani::cover!(expect, "enabled by the specification");
     kani::cover!(!expect && ld.is_none(), "no default: off");
-    kani::cover!(expect && tl == 0, "empty target uses default");
+    kani::cover!(!expect && ld.is_some(), "level filter too strict");
+    std::mem::forget(logger);
+}
+macro_rules! plain_instance {
+    ($name:ident, $l:literal, $first:expr, $w:expr, $f:expr, $log:expr) => {
+        flx_harness! { 12,
+        fn $name() {
+            plain_target_case::<$l>($first, $w, $f, $log);
+        }
+        }
+    };
+}
+// @verif prop=C02 tier=quick timeout=600 bounds=spec{a=L,[default=L]},empty-target,no-writer,no-filter,log()
+// log() passes a plain-target record to the primary writer iff the reference (longest prefix, else default, else off) enables (level, target). Empty target.
+plain_instance!(c02_log_plain_empty, 0, b'a', false, false, true);
+// @verif prop=C02 tier=quick timeout=600 bounds=spec{a=L,[default=L]},targets"a?"-over{a,b,:},no-writer,log()
+// Same for all 2-byte targets starting with 'a' (the specified module, exact and extended).
+plain_instance!(c02_log_plain_a, 2, b'a', false, false, true);
+// @verif prop=C02 tier=quick timeout=600 bounds=spec{a=L,[default=L]},targets"b?",additional-writer-registered,log()
+// Same for all 2-byte targets starting with 'b' (unrelated module -> default), with an additional writer registered (must not receive plain-target records).
+plain_instance!(c02_log_plain_b_writer, 2, b'b', true, false, true);
+// @verif prop=C02 tier=quick timeout=600 bounds=spec{a=L,[default=L]},targets"a?",user-line-filter,log()
+// With a user-supplied line filter the enabled record goes to the filter, which then alone decides; disabled records never reach it.
+plain_instance!(c02_log_plain_a_filter, 2, b'a', false, true, true);
+// @verif prop=C02 tier=quick timeout=600 bounds=spec{a=L,[default=L]},targets"a?",enabled()
+// enabled() == reference for plain targets, i.e. never false for a record log() passes on (same reference as the log() instances).
+plain_instance!(c02_enabled_plain_a, 2, b'a', false, false, false);
+// @verif prop=C02 tier=quick timeout=600 bounds=spec{a=L,[default=L]},targets":?",additional-writer-registered,enabled()
+// enabled() == reference for plain targets when an additional writer is registered.
+plain_instance!(c02_enabled_plain_colon_writer, 2, b':', true, false, false);
+
+// ------------------------------------------------------------------------------------------------
+// Brace targets: one harness instance per concrete token list (the list text is concrete so that
+// split/compare run on constants); writer ceilings, specification, level and module path are
+// symbolic. want = occurrences of [A, B, _Default, unknown names].
+fn brace_case(target: &str, want: [u64; 4]) {
+    vs::link_all();
+    let ca: u64 = kani::any();
+    let cb: u64 = kani::any();
+    kani::assume(ca <= 5 && cb <= 5);
+    vs::cell_set(9, ca);
+    vs::cell_set(10, cb);
+    let (spec, la, ld) = any_spec_a();
+    let logger = mk_logger(spec, 2, false);
+    let level = any_level();
+    let with_mp: bool = kani::any();
+    let mp_a: bool = kani::any();
+    let module_path: Option<&str> = if with_mp { Some(if mp_a { "ab" } else { "b" }) } else { None };
+    // distinct clock values: a second read of the clock would be visible
+    vs::clock_push(vs::Instant { y: 2024, mo: 5, d: 5, h: 1, mi: 1, s: 11, off: 0 });
+    vs::clock_push(vs::Instant { y: 2024, mo: 5, d: 5, h: 1, mi: 1, s: 12, off: 0 });
+    vs::clock_push(vs::Instant { y: 2024, mo: 5, d: 5, h: 1, mi: 1, s: 13, off: 0 });
+    logger.log(&log::Record::builder().level(level).target(target).module_path(module_path).args(format_args!("m")).build());
+    assert!(vs::cell_get(C_A) == want[0]);
+    assert!(vs::cell_get(C_B) == want[1]);
+    assert!(vs::cell_get(C_MSG) == want[3]);
+    let eff_target = module_path.unwrap_or("");
+    let dflt = want[2] > 0 && ref_enabled(level, eff_target, la, ld);
+    assert!(vs::cell_get(C_P) == if dflt { 1 } else { 0 });
+    // one timestamp for all outputs of the record (first clock value: second 11)
+    let (sa, sb, sp) = (vs::cell_get(6), vs::cell_get(7), vs::cell_get(8));
+    assert!(sa == 0 || sa == 12);
+    assert!(sb == 0 || sb == 12);
+    assert!(sp == 0 || sp == 12);
+    kani::cover!(want[2] == 0 || dflt, "default channel reached (if listed)");
+    kani::cover!(want[2] == 0 || !dflt, "default channel suppressed by the spec (if listed)");
+    kani::cover!(lrank(level) > ca, "level above A's ceiling (ceiling is the writer's own business)");
+    std::mem::forget(logger);
+}
+macro_rules! brace_instance {
+    ($name:ident, $target:expr, $want:expr) => {
+        flx_harness! { 12,
+        fn $name() {
+            brace_case($target, $want);
+        }
+        }
+    };
+}
+// @verif prop=C13 tier=quick timeout=600 bounds=target{A},ceilings/spec/level/module-path-symbolic
+// Brace target {A}: exactly one call to writer A, none to B, none to the default channel, whatever the spec.
+brace_instance!(c13_brace_a, "{A}", [1, 0, 0, 0]);
+// @verif prop=C13 tier=quick timeout=600 bounds=target{_Default},ceilings/spec/level/module-path-symbolic
+// {_Default}: default channel iff the spec enables (level, module path); no additional writer.
+brace_instance!(c13_brace_default, "{_Default}", [0, 0, 1, 0]);
+// @verif prop=C13 tier=quick timeout=600 bounds=target{X},ceilings/spec/level/module-path-symbolic
+// {X} (unknown): one report through the error channel, nothing delivered.
+brace_instance!(c13_brace_unknown, "{X}", [0, 0, 0, 1]);
+// @verif prop=C13 tier=quick timeout=600 bounds=target{A,B}
+// {A,B}: one call each.
+brace_instance!(c13_brace_a_b, "{A,B}", [1, 1, 0, 0]);
+// @verif prop=C13 tier=quick timeout=600 bounds=target{B,_Default}
+// {B,_Default}: B once, default channel iff spec enables.
+brace_instance!(c13_brace_b_default, "{B,_Default}", [0, 1, 1, 0]);
+// @verif prop=C13 tier=quick timeout=600 bounds=target{_Default,A}
+// {_Default,A}: order does not matter.
+brace_instance!(c13_brace_default_a, "{_Default,A}", [1, 0, 1, 0]);
+// @verif prop=C13 tier=quick timeout=600 bounds=target{X,A}
+// {X,A}: unknown name reported, delivery to A undisturbed.
+brace_instance!(c13_brace_unknown_a, "{X,A}", [1, 0, 0, 1]);
+// @verif prop=C13 tier=thorough timeout=900 bounds=target{A,X,_Default}
+// Three tokens: {A,X,_Default}.
+brace_instance!(c13_brace_a_unknown_default, "{A,X,_Default}", [1, 0, 1, 1]);
+// @verif prop=C13 tier=thorough timeout=900 bounds=target{B,A,B}
+// A name listed twice is delivered once per occurrence (documented reading: per occurrence).
+brace_instance!(c13_brace_b_a_b, "{B,A,B}", [1, 2, 0, 0]);
+
+// C10: adversarial targets. Symbolic target *bytes* make every downstream slice (ptr, len)
+// symbolic and did not finish (probed: > 9 GB after 4 min even for 1 byte), so the target text is
+// concrete per instance - the menu below holds the shapes named in the property (lone, empty and
+// unbalanced braces, multi-byte characters next to the braces, separators only) - while the
+// specification and the level stay symbolic.
+fn target_no_panic_case(target: &str, call_log: bool) {
+    vs::link_all();
+    vs::cell_set(9, 5);
+    vs::cell_set(10, 5);
+    let (spec, _la, _ld) = any_spec_a();
+    let logger = mk_logger(spec, 1, false);
+    let level = any_level();
+    if call_log {
+        logger.log(&log::Record::builder().level(level).target(target).module_path(Some("ab")).args(format_args!("m")).build());
+    } else {
+        let md = log::Metadata::builder().level(level).target(target).build();
+        let _ = logger.enabled(&md);
+    }
+    kani::cover!(!call_log || vs::cell_get(C_MSG) + vs::cell_get(C_A) + vs::cell_get(C_P) > 0, "something was delivered or reported");
+    std::mem::forget(logger);
+}
+macro_rules! target_instance {
+    ($name:ident, $target:expr) => {
+        flx_harness! { 12,
+        fn $name() {
+            target_no_panic_case($target, true);
+        }
+        }
+    };
+    ($name:ident, $target:expr, enabled) => {
+        flx_harness! { 12,
+        fn $name() {
+            target_no_panic_case($target, false);
+        }
+        }
+    };
+}
+// @verif prop=C10 tier=probe timeout=600 replay=target_no_panic bounds=target"{",spec/level-symbolic,one-additional-writer
+// BUDGET GATE: did not finish on the unchanged tree (CBMC > 12 GB after 9 min); kept as a probe, not registered.
+// enabled()/log() do not panic for the lone opening brace.
+target_instance!(c10_target_lone_open, "{");
+// @verif prop=C10 tier=probe timeout=600 replay=target_no_panic bounds=target"{",enabled()
+// BUDGET GATE: did not finish on the unchanged tree (CBMC > 12 GB after 9 min); kept as a probe, not registered.
+// enabled() does not panic for the lone opening brace.
+target_instance!(c10_target_lone_open_enabled, "{", enabled);
+// @verif prop=C10 tier=probe timeout=600 replay=target_no_panic bounds=target"{A\u{e9}",enabled()
+// BUDGET GATE: did not finish on the unchanged tree (CBMC > 12 GB after 9 min); kept as a probe, not registered.
+// enabled() does not panic for an unbalanced list ending in a multi-byte character.
+target_instance!(c10_target_unbalanced_multibyte_enabled, "{A\u{e9}", enabled);
+// @verif prop=C10 tier=quick timeout=600 replay=target_no_panic bounds=target"{}"
+// ... for the empty brace pair.
+target_instance!(c10_target_empty_braces, "{}");
+// @verif prop=C10 tier=quick timeout=600 replay=target_no_panic bounds=target"{\u{e9}"
+// ... for a multi-byte character directly after the brace, no closing brace (old code cut inside the character).
+target_instance!(c10_target_open_multibyte, "{\u{e9}");
+// @verif prop=C10 tier=quick timeout=600 replay=target_no_panic bounds=target"{A\u{e9}"
+// ... for an unbalanced list ending in a multi-byte character.
+target_instance!(c10_target_unbalanced_multibyte, "{A\u{e9}");
+// @verif prop=C10 tier=quick timeout=600 replay=target_no_panic bounds=target"{\u{e9}}"
+// ... for a multi-byte writer name in braces.
+target_instance!(c10_target_multibyte_name, "{\u{e9}}");
+// @verif prop=C10 tier=quick timeout=600 replay=target_no_panic bounds=target"{,}"
+// ... for separators only.
+target_instance!(c10_target_commas_only, "{,}");
+// @verif prop=C10 tier=quick timeout=600 replay=target_no_panic bounds=target"{A"
+// ... for a missing closing brace.
+target_instance!(c10_target_unbalanced, "{A");
+// @verif prop=C10 tier=quick timeout=600 replay=target_no_panic bounds=target"}"
+// ... for a lone closing brace (plain target).
+target_instance!(c10_target_lone_close, "}");
+// @verif prop=C10 tier=quick timeout=600 replay=target_no_panic bounds=target""
+// ... for the empty target.
+target_instance!(c10_target_empty, "");
+
+// @verif prop=C02,C13 tier=quick timeout=900 bounds=target-{A},writer-A-with-symbolic-ceiling,all-levels replay=enabled_brace_ceiling
+// enabled() never answers false for a brace-target record that log() hands to a writer: for target {A}, enabled() must be true whenever the level is at or below A's ceiling.
+flx_harness! { 12,
+fn c02_enabled_brace_ceiling() {
+    vs::link_all();
+    let ca: u64 = kani::any();
+    kani::assume(ca <= 5);
+    vs::cell_set(9, ca);
+    vs::cell_set(10, 0);
+    // spec switched off entirely: only the writer's ceiling can enable
+    let logger = mk_logger(mk_spec(Vec::new()), 1, false);
+    let level = any_level();
+    let md = log::Metadata::builder().level(level).target("{A}").build();
+    let en = logger.enabled(&md);
+    if lrank(level) <= ca {
+        assert!(en);
+    }
+    kani::cover!(lrank(level) == ca, "record exactly at the writer's ceiling");
     std::mem::forget(logger);
 }
 }
 
+fn lone_probe(target: &str, call_log: bool, empty_spec: bool, nw: usize) {
+    vs::link_all();
+    vs::cell_set(9, 5);
+    vs::cell_set(10, 5);
+    let spec = if empty_spec { mk_spec(Vec::new()) } else { any_spec_a().0 };
+    let logger = mk_logger(spec, nw, false);
+    let level = any_level();
+    if call_log {
+        logger.log(&log::Record::builder().level(level).target(target).module_path(Some("ab")).args(format_args!("m")).build());
+    } else {
+        let md = log::Metadata::builder().level(level).target(target).build();
+        let _ = logger.enabled(&md);
+    }
+    std::mem::forget(logger);
+}
+// @verif prop=C10 tier=probe timeout=200
+flx_harness! { 12,
+fn probe_l1() { lone_probe("{", true, true, 1); }
+}
+// @verif prop=C10 tier=probe timeout=200
+flx_harness! { 12,
+fn probe_l2() { lone_probe("{", false, true, 1); }
+}
+// @verif prop=C10 tier=probe timeout=200
+flx_harness! { 12,
+fn probe_l3() { lone_probe("{x", true, false, 1); }
+}
+// @verif prop=C10 tier=probe timeout=200
+flx_harness! { 12,
+fn probe_l4() { lone_probe("{A\u{e9}", false, true, 1); }
+}
+// @verif prop=C10 tier=probe timeout=200
+flx_harness! { 12,
+fn probe_l5() { lone_probe("{", true, false, 2); }
+}
+
+fn brace_probe(nw: usize, sym_ceil: bool, sym_mp: bool, clock: bool) {
+    vs::link_all();
+    if sym_ceil {
+        let ca: u64 = kani::any();
+        kani::assume(ca <= 5);
+        vs::cell_set(9, ca);
+    } else {
+        vs::cell_set(9, 5);
+    }
+    vs::cell_set(10, 5);
+    let (spec, la, ld) = any_spec_a();
+    let logger = mk_logger(spec, nw, false);
+    let level = any_level();
+    let module_path: Option<&str> = if sym_mp {
+        let with_mp: bool = kani::any();
+        if with_mp { Some("ab") } else { None }
+    } else {
+        Some("zz")
+    };
+    if clock {
+        vs::clock_push(vs::Instant { y: 2024, mo: 5, d: 5, h: 1, mi: 1, s: 11, off: 0 });
+        vs::clock_push(vs::Instant { y: 2024, mo: 5, d: 5, h: 1, mi: 1, s: 12, off: 0 });
+    }
+    logger.log(&log::Record::builder().level(level).target("{A}").module_path(module_path).args(format_args!("m")).build());
+    assert!(vs::cell_get(C_A) == 1);
+    std::mem::forget(logger);
+}
+// @verif prop=C13 tier=probe timeout=240
+flx_harness! { 12,
+fn probe_b1() { brace_probe(2, false, false, false); }
+}
+// @verif prop=C13 tier=probe timeout=240
+flx_harness! { 12,
+fn probe_b2() { brace_probe(1, true, false, false); }
+}
+// @verif prop=C13 tier=probe timeout=240
+flx_harness! { 12,
+fn probe_b3() { brace_probe(1, false, true, false); }
+}
+// @verif prop=C13 tier=probe timeout=240
+flx_harness! { 12,
+fn probe_b4() { brace_probe(1, false, false, true); }
+}
+
 // @verif prop=C02 tier=probe timeout=300
-flx_harness! {
+flx_harness! { 12,
 fn probe_log_nowriters() {
     vs::link_all();
     vs::cell_set(9, 5);
@@ -205,7 +493,7 @@ fn probe_log_nowriters() {
 }
 }
 // @verif prop=C02 tier=probe timeout=300
-flx_harness! {
+flx_harness! { 12,
 fn probe_log_brace() {
     vs::link_all();
     vs::cell_set(9, 5);
